@@ -144,6 +144,18 @@ func runC15(c *eng.Ctx) {
 		c.Check("R2", "trim-after-bang", nv.Pos(), len(trims) >= 2 && inner, "whitespace is trimmed both around the pattern and after a leading '!' (as Docker does)", fmt.Sprintf("%d TrimSpace call(s)", len(trims)))
 		c.Check("R2", "path-cleaned", nv.Pos(), len(eng.CallsNamed(nv, "path.Clean")) == 1, "patterns are cleaned with path.Clean")
 	}
+	// Evaluation is last-match-wins, so the matcher must be built from the very
+	// list the caller gave — every pattern, repetitions included, in that order
+	// (['*.log','!debug.log','*.log'] and its de-duplicated form decide differently).
+	if ni := c.MustFunc("R2", dockIgnPkg, "NewIgnorer"); ni != nil {
+		calls := eng.CallsNamed(ni, "synchronization/core/ignore/docker.newValidatedPatternMatcher")
+		for _, call := range calls {
+			c.Check("R2", "matcher-built-from-the-given-list", call.Pos(), eng.Render(call.Common().Args[0]) == "p0", "the matcher is built from the caller's pattern list itself (nothing dropped, merged or reordered beforehand)", eng.Render(call.Common().Args[0]))
+		}
+		if len(calls) != 1 {
+			c.Problem("R2", "expected one newValidatedPatternMatcher call in NewIgnorer, found %d", len(calls))
+		}
+	}
 	c.Floor("R2", 8)
 
 	scanIgnoreTable(c, "R3")
